@@ -85,7 +85,11 @@ func runC13(c *core.Ctx) {
 			}
 			c.Count("close_yield_point_hits", 1)
 		},
-		Send: func(func() bool) { atomic.AddInt64(&sendsG, 1) },
+		Send: func(func() bool) {
+			if callerIs("sendError") {
+				atomic.AddInt64(&sendsG, 1) // counts ERROR sends only
+			}
+		},
 	})
 	defer fsnotify.VerifSetHooks(nil)
 	base := filepath.Join(c.Tmp, "t")
@@ -241,7 +245,7 @@ func runC13(c *core.Ctx) {
 			od := filepath.Join(base, "ov")
 			os.Mkdir(od, 0o755)
 			w.Add(od)
-			for k := 0; k < mq+300; k++ {
+			for k := 0; k < mq+cap(w.Events)+2600; k++ {
 				os.WriteFile(filepath.Join(od, fmt.Sprint("o", k)), nil, 0o644)
 			}
 			close(ovGate)
@@ -250,7 +254,7 @@ func runC13(c *core.Ctx) {
 			reached := false
 			for p := 0; p < 150000; p++ {
 				ne := atomic.LoadInt64(&ovEvents)
-				if ne >= int64(mq) && atomic.LoadInt64(&sendsG)-ovSends0 > ne {
+				if _ = ne; atomic.LoadInt64(&sendsG) > ovSends0 { // a send from sendError has begun
 					reached = true
 					break
 				}
